@@ -399,7 +399,39 @@ func hasVisitedScan(ci ssa.CallInstruction, list ssa.Value) bool {
 						continue
 					}
 					if r, ok := s.Instrs[len(s.Instrs)-1].(*ssa.Return); ok && !mayReturnNilErr(r) {
-						found = true
+						// when the scan decides by path containment (filepath.Rel of a list element against the
+						// value being entered), the refusing exit is the edge on which the ELEMENT was found
+						// inside that value — not the other way round, and not the complement
+						var inLoopK []Containment
+						for _, k := range findContainments(fn) {
+							if k.Kind != "rel" && k.Kind != "hasprefix" {
+								continue
+							}
+							kb := k.At.Block()
+							if kb == head || (reaches(kb, head) && reaches(head, kb)) {
+								inLoopK = append(inLoopK, k)
+							}
+						}
+						if len(inLoopK) == 0 {
+							found = true
+							continue
+						}
+						for _, k := range inLoopK {
+							fromList := func(v ssa.Value) bool {
+								if gp == nil {
+									return false
+								}
+								for w := range gp.backSlice(v, 0) {
+									if ia2, ok := w.(*ssa.IndexAddr); ok && (sameLoc(ia2.X, base) || canon(ia2.X) == base) {
+										return true
+									}
+								}
+								return false
+							}
+							if k.Sound && gp != nil && gp.established(k, s) && fromList(k.Subject) && k.Root != nil && !fromList(k.Root) {
+								found = true
+							}
+						}
 					}
 				}
 			}
